@@ -74,3 +74,115 @@ def communicator_kernels_uniform_in_marker_count(K, dim):
                 codes.add((code.co_code, code.co_names, tuple(repr(c) for c in code.co_consts), code.co_varnames, fn.__name__))
             K.ensures(f"{gname}[n_components={ncomp}]_is_the_same_code_for_every_marker_count", len(codes) == 1,
                       note=f"marker counts {counts}")
+
+
+def _parallel_reductions(src):
+    """(function, line, what) for every loop over numba.prange whose body accumulates into a scalar, or into an array
+    element whose index does not involve the loop variable: such a reduction is combined in thread order."""
+    out = []
+    tree = ast.parse(src)
+    for fn in [n for n in ast.walk(tree) if isinstance(n, (ast.FunctionDef, ast.AsyncFunctionDef))]:
+        for loop in [n for n in ast.walk(fn) if isinstance(n, ast.For)]:
+            it = loop.iter
+            callee = it.func if isinstance(it, ast.Call) else None
+            pname = callee.id if isinstance(callee, ast.Name) else (callee.attr if isinstance(callee, ast.Attribute) else None)
+            if pname != "prange":
+                continue
+            loop_vars = {n.id for n in ast.walk(loop.target) if isinstance(n, ast.Name)}
+            for node in ast.walk(loop):
+                if not isinstance(node, ast.AugAssign):
+                    continue
+                tgt = node.target
+                if isinstance(tgt, ast.Name):
+                    out.append((fn.name, node.lineno, f"scalar reduction into `{tgt.id}`"))
+                elif isinstance(tgt, ast.Subscript):
+                    idx_names = {n.id for n in ast.walk(tgt.slice) if isinstance(n, ast.Name)}
+                    inner_vars = {n.id for l2 in ast.walk(loop) if isinstance(l2, ast.For) and l2 is not loop
+                                  for n in ast.walk(l2.target) if isinstance(n, ast.Name)}
+                    if not (idx_names & loop_vars) and not (idx_names & inner_vars and False):
+                        out.append((fn.name, node.lineno, "accumulation into an element not indexed by the parallel loop variable"))
+    return out
+
+
+@unit("no_thread_order_reductions_in_numba_code", props=("C15",), kernels=False,
+      configs=[dict(package=p) for p in ("numeric", "simulator", "utils")],
+      assumes=("syntactic criterion on the source text in /repo: a loop over numba.prange is schedule independent when it does not "
+               "accumulate into a scalar or into elements not indexed by its loop variable (element-wise parallel maps are accepted)",))
+def no_thread_order_reductions_in_numba_code(K, package):
+    """every hand-written numba function of the package (coupling routines, forcing grids, communicators, utilities):
+    no reduction over a parallel loop, whose floating-point result would depend on the number of threads."""
+    import os
+    import sopht
+    root = os.path.join(os.path.dirname(sopht.__file__), package)
+    K.functions.append(f"sopht.{package}")
+    found, nfiles = [], 0
+    for d, _dirs, files in sorted(os.walk(root)):
+        for f in sorted(files):
+            if f.endswith(".py"):
+                nfiles += 1
+                path = os.path.join(d, f)
+                for fn, line, what in _parallel_reductions(open(path).read()):
+                    found.append(f"{os.path.relpath(path, root)}:{line} in {fn}: {what}")
+    K.ensures("package_has_source_files", nfiles > 0)
+    K.ensures("no_reduction_over_a_parallel_numba_loop", not found, note="; ".join(found)[:600])
+
+
+_NUMERIC_BUILTINS = {"int", "float", "max", "min", "abs", "round", "range", "bool", "len", "divmod", "pow", "sum"}
+
+
+def _thread_count_computations(src):
+    """uses of `num_threads` that COMPUTE with the thread count (arithmetic, comparison, branching, numeric builtins,
+    indexing, loop bounds) instead of handing it on to a kernel configuration / a sub-generator / an object"""
+    tree = ast.parse(src)
+    parents = {}
+    for node in ast.walk(tree):
+        for ch in ast.iter_child_nodes(node):
+            parents[ch] = node
+    out = []
+    for node in ast.walk(tree):
+        is_nt = (isinstance(node, ast.Name) and node.id == "num_threads") or (isinstance(node, ast.Attribute) and node.attr == "num_threads")
+        if not is_nt or not isinstance(getattr(node, "ctx", None), ast.Load):
+            continue
+        if isinstance(node, ast.Name) and isinstance(parents.get(node), ast.Attribute):
+            continue
+        par = parents.get(node)
+        ok = False
+        if isinstance(par, ast.keyword):
+            ok = True  # handed on by keyword
+        elif isinstance(par, ast.Call) and node in par.args:
+            f = par.func
+            fname = f.id if isinstance(f, ast.Name) else (f.attr if isinstance(f, ast.Attribute) else "")
+            ok = fname not in _NUMERIC_BUILTINS
+        elif isinstance(par, (ast.Assign, ast.AnnAssign)) and par.value is node:
+            ok = True  # stored (self.num_threads = num_threads)
+        elif isinstance(par, (ast.FormattedValue, ast.JoinedStr)):
+            ok = True  # printed
+        elif isinstance(par, ast.arguments):
+            ok = True
+        if not ok:
+            out.append((node.lineno, type(par).__name__))
+    return out
+
+
+@unit("thread_count_only_reaches_kernel_configurations", props=("C15",), kernels=False,
+      configs=[dict(package=p) for p in ("numeric", "simulator", "utils")],
+      assumes=("syntactic criterion on the source text in /repo: `num_threads` is only handed on (call argument that is not a numeric "
+               "builtin, keyword argument, attribute assignment, formatted output), never computed with; pystencils / FFTW honour "
+               "schedule independence of what they are configured with (A3)",))
+def thread_count_only_reaches_kernel_configurations(K, package):
+    """no wrapper, simulator or solver derives block sizes, loop bounds, branches or anything else from the thread
+    count: the only consumers are the kernel configuration, the FFT plans and sub-generators."""
+    import os
+    import sopht
+    root = os.path.join(os.path.dirname(sopht.__file__), package)
+    K.functions.append(f"sopht.{package}")
+    found, nfiles = [], 0
+    for d, _dirs, files in sorted(os.walk(root)):
+        for f in sorted(files):
+            if f.endswith(".py"):
+                nfiles += 1
+                path = os.path.join(d, f)
+                for line, how in _thread_count_computations(open(path).read()):
+                    found.append(f"{os.path.relpath(path, root)}:{line} ({how})")
+    K.ensures("package_has_source_files", nfiles > 0)
+    K.ensures("thread_count_is_never_computed_with", not found, note="; ".join(found)[:600])
